@@ -258,11 +258,11 @@ async fn interp(case: &BhCase) -> Verdict {
                 let fut = if c.svc2 {
                     let s = &mut clones2[k];
                     let _ = futures::future::poll_fn(|cx| s.poll_ready(cx)).await;
-                    s.call(req)
+                    Box::pin(s.call(req)) as futures::future::BoxFuture<'static, _>
                 } else {
                     let s = &mut clones1[k];
                     let _ = futures::future::poll_fn(|cx| s.poll_ready(cx)).await;
-                    s.call(req)
+                    Box::pin(s.call(req)) as futures::future::BoxFuture<'static, _>
                 };
                 held[i] = Some(fut);
                 rt[i].arrived = true;
